@@ -1158,8 +1158,16 @@ def c12(ctx):
     COUNT_SOURCES = {"libfs::linux::copy_file_bytes", "libfs::linux::copy_file_offset",
                      "libfs::fallback::copy_file_bytes", "libfs::fallback::copy_file_offset"}
     ncop = 0
+    # evaluated on the role/closure views (a `copied(n)` convenience method or helper is inlined there); a
+    # construction site that no view contains is evaluated in its own function
+    cand = []
+    done_sites = set()
+    for lab, v_ in sorted(views.all_views(fx).items()):
+        cand.append((lab, v_, True))
     for f in ro.fns_in_scope(fx, crates=("libxcp",)):
-        if f.path.startswith("<libxcp::feedback::"):
+        cand.append((f.path, f, False))
+    for lab, f, is_view in cand:
+        if lab.startswith("<libxcp::feedback::"):
             continue
         k = 0
         for bi, b in enumerate(f.blocks):
@@ -1168,6 +1176,12 @@ def c12(ctx):
             for s in b["stmts"]:
                 rv = s["rv"]
                 if rv["k"] == "agg" and rv.get("adt") == STATUS_UPDATE and rv["variant"] == "Copied":
+                    sid = (s["span"]["file"], s["span"]["line"], s["span"].get("col"), lab if is_view else "")
+                    if not is_view and any(x[:3] == sid[:3] for x in done_sites):
+                        continue
+                    if sid in done_sites:
+                        continue
+                    done_sites.add(sid)
                     ncop += 1
                     l = op_local(rv["fields"][0])
                     const = "c" in rv["fields"][0]
@@ -1179,8 +1193,8 @@ def c12(ctx):
                     other = [a for a in atoms if a.kind in ("arg", "const", "agg")]
                     # upvars of closures: captured requested length would show up as a field of _1 (arg)
                     ok = bool(calls) and calls <= COUNT_SOURCES and not other and not const
-                    obs.append(Ob("R-TABLE", mkkey("R-TABLE", f.path, "StatusUpdate::Copied", k, "operand"), ok,
-                                  "%s:%d" % (s["span"]["file"], s["span"]["line"]), f.path,
+                    obs.append(Ob("R-TABLE", mkkey("R-TABLE", views.label_of(lab) + ":" + lab.split("::")[-1], "StatusUpdate::Copied", k, "operand"), ok,
+                                  "%s:%d" % (s["span"]["file"], s["span"]["line"]), lab,
                                   "Copied(x): x derives from %s%s" % (sorted(c.split("::")[-1] for c in calls),
                                                                        "" if not other else " and %s" % [repr(a) for a in other][:3]),
                                   None if ok else dict(origins=[repr(a) for a in atoms])))
@@ -1261,6 +1275,7 @@ def c16(ctx):
                             l = op_local(o)
                             if l is not None and "Vec<std::path::PathBuf" in m.locals[l]["ty"]:
                                 caps.add(l)
+    caps0 = set(caps)
     # aliases of the captured list by plain moves (backwards)
     work = list(caps)
     while work:
@@ -1268,6 +1283,10 @@ def c16(ctx):
         for site, whole in du.defs.get(l, []):
             if not site.is_term and site.node["rv"]["k"] == "use":
                 p_ = op_place(site.node["rv"]["op"])
+                if p_ is not None and p_.get("p"):
+                    # moved out of a field of a plan/context struct: what was put into that field
+                    src_ = q.agg_field_source(m, p_)
+                    p_ = op_place(src_) if src_ is not None else None
                 if p_ is not None and not p_.get("p") and p_["l"] not in caps:
                     caps.add(p_["l"])
                     work.append(p_["l"])
@@ -1286,8 +1305,17 @@ def c16(ctx):
                                                  "core::slice::<impl [T]>::iter": [0],
                                                  "core::ops::deref::Deref::deref": [0],
                                                  "alloc::vec::Vec::<T, A>::as_slice": [0]}).origins(l0)
-                if seen & caps and all(cfg.dominates(bi, sb) for sb in sbs):
+                if not all(cfg.dominates(bi, sb) for sb in sbs):
+                    continue
+                if seen & caps:
                     it_ok = True
+                else:
+                    # the list may travel to the copy inside a plan/context struct, through `?` and destructuring
+                    import p_thread
+                    roots = [x for x in seen if "Vec<std::path::PathBuf" in m.locals[x]["ty"] and not m.locals[x]["ty"].startswith("&")]
+                    tn, _via = p_thread.taint_from(m, roots)
+                    if tn & caps0:
+                        it_ok = True
     obs.append(Ob("R-ORDER", mkkey("R-ORDER", MAIN, "validate-all-sources", 0), it_ok, m.loc(), MAIN,
                   "a loop over the source list that is handed to the copy completes before the copy starts: %s" % it_ok))
     # the walk follows a symlink given as a source (walkdir follows root links), so the validation must too:
